@@ -17,6 +17,16 @@ CHECKS = {
        "AES-128/CMAC proved against FIPS-197/RFC 4493 vectors) and implementation (device- and network-side RustCrypto variants) on the same generated descriptions.",
   note=COMMON_NOTE + "RustCrypto aes/cmac are external code: modelled by Crypto/AES.v, CMAC.v and compared on random blocks. Theorems assume only the 16-byte output length of cipher and MAC.",
   tech="machine-checked proof in Coq (builder model = declarative L2 spec, all inputs) + differential correspondence with an independent Gallina AES/CMAC", ref="6 C01"),
+ "C02": dict(
+  text="Coq theorems (Props/C02.v), for arbitrary cipher/MAC functions with 16-byte outputs: a data frame parses iff it is structurally well formed and every layout "
+       "offset is in bounds; validate_mic accepts iff the frame's MIC equals the reference MIC for the given 32-bit counter and the frame's own direction bit; "
+       "check_mic_and_decrypt_in_place of ANY frame the spec builds returns the description it was built from (header fields, FOpts, port, plaintext; induction over "
+       "keystream blocks, no length enumeration) and decrypt_in_place needs only the upper counter half; a failing checked decode returns the buffer unchanged; "
+       "JoinAccept decrypt+verify round trip and field accessors (under the named premise enc(dec b)=b), session-key derivation = LoRaWAN 1.0.x. Tied to the code by "
+       "running model and implementation on valid frames (matching / near / wrong counters, swapped or missing keys), bit-mutated frames, a structural lattice of "
+       "short strings, JoinRequest/JoinAccept frames incl. wrong keys, comparing decoded fields AND the caller's buffer after every call.",
+  note=COMMON_NOTE + "Premises: 16-byte outputs of cipher and MAC (proved for the Gallina AES/CMAC); enc_dec only for the JoinAccept round trip (checked on random blocks against RustCrypto and AES.v by C01's primitive comparison).",
+  tech="machine-checked proof in Coq (parser/decryptor model vs declarative L2 spec; round trip) + differential correspondence incl. mutated frames", ref="6 C02"),
  "C15": dict(
   text="Coq theorems: every driver's LDRO decision and the bit programmed into the chip equal the airtime calculator's, and that "
        "decision is 'on' exactly when 2^SF*10^6 >= 16384*BW (exact arithmetic) for all SF 5..12 x all 10 bandwidths. The models are "
